@@ -282,9 +282,13 @@ Pred(c, S) ==
                /\ \A i \in 1..Len(its) : Cardinality(its[i].vals) <= 1 /\ its[i].kind # "zone"
        THEN Prediction("parse", "", ParseAttrs(DevEmitText(its)).attrs, <<>>, dupErr)
        ELSE Prediction("items", "", <<>>, its, ErrOk(its) \cup dupErr)
+\* same attributes, in any order (the order of attributes in a tag carries no meaning)
+SameBag(a, b) == /\ Len(a) = Len(b)
+                 /\ \A x \in SeqRange(a) \cup SeqRange(b) :
+                      Cardinality({i \in 1..Len(a) : a[i] = x}) = Cardinality({i \in 1..Len(b) : b[i] = x})
 Predicted(p, obs) ==
   CASE p.mode = "err"   -> obs.err \o "/" \o obs.errkind = p.err
-    [] p.mode = "parse" -> IF obs.err # "" THEN obs.err \in p.errok ELSE ~obs.spill /\ obs.attrs = p.attrs
+    [] p.mode = "parse" -> IF obs.err # "" THEN obs.err \in p.errok ELSE ~obs.spill /\ SameBag(obs.attrs, p.attrs)
     [] p.mode = "items" -> Conform([items |-> p.items, err |-> p.errok], obs)
 DevSets == << {2}, {3}, {1}, {1, 2}, {1, 3}, {2, 3}, {1, 2, 3} >>
 KeyOf(S) == IF 1 \in S THEN KeyShift ELSE IF 2 \in S THEN KeyNum ELSE KeyName
